@@ -76,7 +76,12 @@ func vhSnakePinned(camel string) string {
 // file per stored object named <uuid><ext>[.gz], whose content is the
 // plain JSON encoding of the object (gzip iff .gz).
 func VH_C18_layout() {
-	cfg := vhPickCfg()
+	// the six standard configurations plus compression combined with a custom
+	// extension, one of them itself ending in ".gz" (the ".gz" is still added)
+	cfgs := append(append([]vhCfg(nil), vhCfgs...),
+		vhCfg{name: "gzip+ext", compress: true, ext: ".bin"},
+		vhCfg{name: "gzip+ext.gz", compress: true, ext: ".json.gz"})
+	cfg := cfgs[vChoice("cfg", len(cfgs))]
 	db, root := vhOpenDB(cfg)
 	var rows []vhRow
 	pre := vLen("pre", 0, vBound("PRE", 2))
